@@ -156,8 +156,52 @@ def full_pass(out, base='/repo'):
         shutil.rmtree(wt + '_out', ignore_errors=True)
 
 
+def summary(out):
+    """Markdown summary of the sweep (pasted into DESIGN.md between the MUTATION_SUMMARY markers by `hv.mutate summary --write`)."""
+    recs = [json.loads(l) for l in open(out)]
+    tri_path = os.path.join(ROOT, 'seeded', 'mutation_triage.json')
+    tri = json.load(open(tri_path)) if os.path.exists(tri_path) else {}
+    by = {}
+    for r in recs:
+        by.setdefault(r['result'], []).append(r)
+    ops = {}
+    for r in recs:
+        o = ops.setdefault(r['site'][0], {'n': 0, 'tests': 0, 'checks': 0, 'surv': 0})
+        o['n'] += 1
+        o['tests' if r['result'] == 'killed_by_pinned_tests' else 'checks' if r['result'] == 'killed_by_checks' else 'surv'] += 1
+    killers = {}
+    for r in by.get('killed_by_checks', []):
+        for c in r.get('killed_by', []):
+            killers[c] = killers.get(c, 0) + 1
+    L = [f'Sampled mutants: {len(recs)} (of {len(sites("/repo"))} sites).  Killed by the 45 pinned tests (discarded): '
+         f'{len(by.get("killed_by_pinned_tests", []))}.  Killed by the reduced battery: {len(by.get("killed_by_checks", []))} '
+         f'(first killing check: ' + ', '.join(f'{c} {n}' for c, n in sorted(killers.items(), key=lambda x: -x[1])) + f').  Survived the reduced battery: '
+         f'{len(by.get("survived_battery", []))}; harness errors: {len(by.get("harness_error", []))}.', '',
+         '| operator | sampled | killed by pinned tests | killed by the battery | survived the battery |', '|---|---|---|---|---|']
+    for o, v in sorted(ops.items()):
+        L.append(f'| {o} | {v["n"]} | {v["tests"]} | {v["checks"]} | {v["surv"]} |')
+    L += ['', 'Survivors of the reduced battery, each followed up by hand and with full quick tiers:', '']
+    for r in by.get('survived_battery', []):
+        s = r['site']
+        key = f'{s[1]}:{s[2]}:{s[4]}->{s[5]}'
+        L.append(f'* `{s[1]}:{s[2]}` `{s[4]}` -> `{s[5]}` ({s[0]}): ' + tri.get(key, r.get('full', 'not yet followed up')))
+    return '\n'.join(L)
+
+
 def main():
     a = sys.argv[1:]
+    if a and a[0] == 'summary':
+        out = os.path.join(ROOT, 'seeded', 'mutation_sweep.jsonl')
+        text = summary(out)
+        if '--write' in a:
+            p = os.path.join(ROOT, 'DESIGN.md')
+            d = open(p).read()
+            i = d.index('<!-- MUTATION_SUMMARY -->') + len('<!-- MUTATION_SUMMARY -->')
+            j = d.index('<!-- /MUTATION_SUMMARY -->')
+            open(p, 'w').write(d[:i] + '\n' + text + '\n' + d[j:])
+        else:
+            print(text)
+        return
     if a and a[0] == 'full':
         full_pass(a[1] if len(a) > 1 else os.path.join(ROOT, 'seeded', 'mutation_sweep.jsonl'))
         return
